@@ -2,6 +2,7 @@ package main
 
 import (
 	"fmt"
+	"math"
 	"sort"
 	"strings"
 
@@ -318,6 +319,77 @@ func suiteDiffStructs(tier string, seed uint64) *Report {
 		check("alt.Diff(struct, struct)", safe(func() string { return fmt.Sprint(len(alt.Diff(a, b)) == 0) }), safe(func() string { return fmt.Sprint(len(alt.Diff(ma, mb)) == 0) }))
 		check("alt.Compare(struct, struct)", safe(func() string { return fmt.Sprint(alt.Compare(a, b) == nil) }), safe(func() string { return fmt.Sprint(alt.Compare(ma, mb) == nil) }))
 	}
-	rep.Rule = "struct arguments: Match / Diff / Compare on pairs of Go structs (nil pointer fields, nil map members, nil list elements) must answer as on their decompositions with every field kept"
+	// directed: whole floats outside the int64 range against the int64 extremes; typed nil pointers
+	// held in a fingerprint; several differing leaves at depth 4-8 (every Diff path leads to a
+	// genuine difference, no path twice, Compare returns one of them)
+	for _, pr := range [][2]any{{int64(math.MinInt64), 1e300}, {int64(math.MaxInt64), 1e300}, {int64(math.MinInt64), -1e300}, {int64(math.MinInt64), math.Inf(-1)},
+		{uint64(1 << 63), 1e19}, {int64(math.MaxInt64), float32(3e38)}, {int64(5), 5.0}, {int64(math.MinInt64), -9.223372036854775808e18}} {
+		rep.Evaluations++
+		same := fmt.Sprint(pr[0]) == fmt.Sprint(pr[1]) || (pr[0] == any(int64(5)) && pr[1] == any(5.0)) || (pr[0] == any(int64(math.MinInt64)) && pr[1] == any(-9.223372036854775808e18))
+		for _, nest := range []bool{false, true} {
+			a, b := pr[0], pr[1]
+			if nest {
+				a, b = map[string]any{"k": []any{a}}, map[string]any{"k": []any{b}}
+			}
+			got := safe(func() string {
+				return fmt.Sprint(len(alt.Diff(a, b)) == 0, alt.Compare(a, b) == nil, alt.Match(a, b))
+			})
+			if want := fmt.Sprint(same, same, same); got != want {
+				rep.Add(Disagreement{Case: fmt.Sprintf("%v (%T) vs %v (%T) nested=%v", pr[0], pr[0], pr[1], pr[1], nest), Where: "alt.Diff/Compare/Match", Kind: "impl-law:numeric-width", Impl: got, Spec: want})
+			}
+		}
+	}
+	for k := 0; k < 4; k++ {
+		rep.Evaluations++
+		var np *dInner
+		fp := map[string]any{"p": np, "n": int64(k)}
+		tg := map[string]any{"p": &dInner{N: k}, "n": int64(k)}
+		if got := safe(func() string { return fmt.Sprint(alt.Match(fp, tg), alt.Match([]any{np}, []any{&dInner{N: 1}})) }); got != "false false" {
+			rep.Add(Disagreement{Case: "fingerprint holding a typed nil pointer against a target with a value", Where: "alt.Match", Kind: "impl-law:struct-arguments", Impl: got, Spec: "false false"})
+		}
+	}
+	for depth := 1; depth <= 8; depth++ {
+		mk := func(leaf []any) any {
+			var v any = leaf
+			for i := 0; i < depth; i++ {
+				v = map[string]any{fmt.Sprintf("k%d", i): v}
+			}
+			return v
+		}
+		a, b := mk([]any{int64(1), int64(2), int64(3), int64(4)}), mk([]any{int64(1), int64(5), int64(6), int64(4)})
+		rep.Evaluations++
+		out := safe(func() string {
+			ds := alt.Diff(a, b)
+			seen := map[string]bool{}
+			for _, p := range ds {
+				t := pathText(p)
+				if seen[t] {
+					return "path " + t + " returned twice"
+				}
+				seen[t] = true
+			}
+			if len(ds) != 2 {
+				return fmt.Sprintf("%d paths: %v", len(ds), ds)
+			}
+			for _, idx := range []int{1, 2} {
+				want := make(alt.Path, 0, depth+1)
+				for i := depth - 1; i >= 0; i-- {
+					want = append(want, fmt.Sprintf("k%d", i))
+				}
+				want = append(want, idx)
+				if !seen[pathText(want)] {
+					return "missing " + pathText(want) + " in " + fmt.Sprint(ds)
+				}
+			}
+			if c := alt.Compare(a, b); c == nil || !seen[pathText(c)] {
+				return "Compare returns " + fmt.Sprint(c) + ", not one of Diff's paths"
+			}
+			return "ok"
+		})
+		if out != "ok" {
+			rep.Add(Disagreement{Case: fmt.Sprintf("two differing leaves at depth %d", depth+1), Where: "alt.Diff/Compare", Kind: "impl-law:paths", Impl: out, Spec: "exactly the two differing leaves, each once"})
+		}
+	}
+	rep.Rule = "directed: int64 extremes against whole floats outside the range; typed nil pointers in fingerprints; differing leaves at depth 2-9; struct arguments: Match / Diff / Compare on pairs of Go structs (nil pointer fields, nil map members, nil list elements) must answer as on their decompositions with every field kept"
 	return rep
 }
